@@ -249,7 +249,7 @@ mutual
 end
 
 /-- fuel that is always enough for an input of this length (`Totality.lean`). -/
-def fuelFor (bs : Bytes) : Nat := 2 * bs.length + 3
+def fuelFor (bs : Bytes) : Nat := 3 * bs.length + 3
 
 /-- the strict decoder as the drivers run it. -/
 def decode (t : UInt8) (bs : Bytes) : Res (WValue × Bytes) := dec (fuelFor bs) t bs
